@@ -64,7 +64,7 @@ def g_replay(rep, nh, maxlen, view, sc, label):
     nv.write_ndjson(ppath, paths)
     opath = os.path.join(sc, "out_%s.ndjson" % label)
     nv.harness("nv-list", ["list-replay", "--nodes", npath, "--paths", ppath, "--nh", str(nh), "--out", opath])
-    rows = nv.read_ndjson_text(open(opath).read())
+    rows = nv.read_ndjson_text(open(opath, encoding="utf-8").read())
     summ = rows[-1]
     for r in rows[:-1]:
         if r["kind"] == "mismatch":
@@ -89,7 +89,7 @@ def g_replay(rep, nh, maxlen, view, sc, label):
     victim["hs"] = [dict(h, rc=h["rc"] + 1) if h.get("live") else h for h in victim["hs"]]
     nv.write_ndjson(npath, nds)
     nv.harness("nv-list", ["list-replay", "--nodes", npath, "--paths", ppath, "--nh", str(nh), "--out", opath])
-    rows = nv.read_ndjson_text(open(opath).read())
+    rows = nv.read_ndjson_text(open(opath, encoding="utf-8").read())
     rep.notes["selftest_G_corrupted_expectation_detected"] = rows[-1]["drift"] > 0
     if rows[-1]["drift"] == 0:
         raise nv.ToolError("binding self-test failed: corrupted expectation not detected")
